@@ -40,6 +40,10 @@ if os.path.exists(p):
 out=["### 7.5 Which checks catch which seeded changes\n",
 "Independent sub-agents were given only the text of one property and a scratch worktree (nothing from /verif) and asked for two realistic changes each that break the property, compile, pass the existing tests and need something specific to manifest, with a demonstration. Each was confirmed by `seedcheck.sh` in a fresh scratch worktree (demonstration passes on the unchanged tree, fails with the patch; the existing tests named in meta.json pass with the patch), then the quick check of that property was run against the patched worktree (`VERIF_REPO=<worktree> ./check <ID> quick`). Rounds: `<ID>-m<k>` (round 1), `<ID>-r2m<k>`, `<ID>-r3m<k>` (later rounds; the agents were additionally given one-line summaries of the earlier changes for their property so as not to repeat them). Kept changes are in `/verif/seeded/<name>/` (patch.diff, demo_test.go, meta.json with what was run). The table shows the result with the machinery as committed; where a change was first missed, the strengthening is described in §7.6.\n",
 "| seeded change | what it does | needs to manifest | quick check result | classes that fired |","|---|---|---|---|---|"]+rows
+NOTE={'C05-revert-F58':'not caught deterministically: the window is a few instructions wide (distributor past its check, all workers gone); the monitor bounds the unseal and reports `C05-lease-restore-hangs-after-read-fault` when it happens (witness: findings/F58-restore-hang.txt)'}
+for k,v in NOTE.items():
+    if k in latest and latest[k].rstrip().endswith('|  |'):
+        latest[k]=latest[k].rstrip()[:-3]+v+' |'
 out+=["","Patches written by the lead or by harness builders to validate monitors (`selfmut/`, applied with `mutcheck.sh`; builders' own mutation tables are in their harness reports summarised in §7.7):\n","| patch | property | result | classes |","|---|---|---|---|"]+[latest[k] for k in sorted(latest)]+[""]
 p=os.path.join(V,'DESIGN.md'); s=open(p).read()
 if "<!-- SEEDED-BEGIN -->" not in s:
